@@ -16,6 +16,8 @@ var c15Alphabets = map[string][]rune{
 	"expression": []rune("a1.e\"'/*<= \U0001F600"),
 	"csv":        []rune("a,\"\n\r я\U0001F600"),
 	"mustache":   []rune("a{}#'! /1я\"\U0001F600"),
+	"csv+latin1": []rune("a\u00a6\u00ab\u00ff\n \U0001F600"),
+	"csv+wide":   []rune("a\u2192;\u201d'\n\U0001F600"),
 }
 
 // refDecode is the reference decoding of a token read by the quote state.
@@ -24,7 +26,7 @@ func refDecode(kind string, v string) string {
 	if len(r) >= 2 && r[0] == r[len(r)-1] {
 		q := string(r[0])
 		inner := string(r[1 : len(r)-1])
-		if kind == "expression" || kind == "csv" {
+		if kind == "expression" || strings.HasPrefix(kind, "csv") {
 			inner = strings.ReplaceAll(inner, q+q, q)
 		}
 		return inner
@@ -204,21 +206,21 @@ func init() {
 	fw.Register(&fw.Check{
 		ID:    "C15",
 		Level: "model_checking",
-		Rule: "4 tokenizers x every string up to the length bound over a 8..12-symbol alphabet (whitespace, comment opener, number, quotes, unknown character, multi-character symbol) x all 128 option sets, plus every sequence of <=3 (thorough 4) lexemes from a vocabulary with quoted strings whose content is a symbol, comment opener or blank; " +
+		Rule: "(also: 80 boundary characters in every short context and every pattern of <=2 characters repeated up to 1000 times) 4 tokenizers x every string up to the length bound over a 8..12-symbol alphabet (whitespace, comment opener, number, quotes, unknown character, multi-character symbol) x all 128 option sets, plus every sequence of <=3 (thorough 4) lexemes from a vocabulary with quoted strings whose content is a symbol, comment opener or blank; " +
 			"oracle: stream(opts) == T(opts, stream(no options)) for a reference transformer that only drops/rewrites whole tokens; inputs whose option-free stream is itself broken are skipped and counted (C04); " +
 			"non-trivial = (input, option set) pairs on which T is not the identity",
 		Assume: []string{"C04 holds for the input (otherwise skipped)", "termination decided by the scanner step budget"},
 		Spaces: func(tier string) []fw.Space {
-			lens := map[string]int{"generic": 4, "expression": 4, "csv": 5, "mustache": 4}
+			lens := map[string]int{"generic": 4, "expression": 4, "csv": 5, "mustache": 4, "csv+latin1": 4, "csv+wide": 4}
 			if tier == "thorough" {
-				lens = map[string]int{"generic": 5, "expression": 5, "csv": 6, "mustache": 5}
+				lens = map[string]int{"generic": 5, "expression": 5, "csv": 6, "mustache": 5, "csv+latin1": 5, "csv+wide": 5}
 			}
 			all := []int{}
 			for o := 0; o < 128; o++ {
 				all = append(all, o)
 			}
 			sp := []fw.Space{}
-			for _, kind := range tokKinds {
+			for _, kind := range tokKindsExt {
 				kind := kind
 				al := c15Alphabets[kind]
 				sp = append(sp, fw.Space{Name: kind, N: countStrings(len(al), lens[kind]),
@@ -236,6 +238,34 @@ func init() {
 					Run:  func(c *fw.Ctx, i int64) { c15Run(c, kind, strings.Join(lexemesByIndex(vocab, i), ""), all) },
 					Repr: func(i int64) string {
 						return fmt.Sprintf("%s tokenizer, input %q, all 128 option sets", kind, strings.Join(lexemesByIndex(vocab, i), ""))
+					}})
+			}
+			ctxN := 1
+			counts := pumpCountsSmall
+			if tier == "thorough" {
+				ctxN = 2
+				counts = pumpCounts
+			}
+			for _, kind := range tokKinds {
+				kind := kind
+				ca := tokContextAlphabets[kind]
+				nctx := contextsCount(ca, ctxN)
+				sp = append(sp, fw.Space{Name: "charsweep-" + kind, N: nctx * int64(len(boundaryChars)),
+					Run: func(c *fw.Ctx, i int64) {
+						pre, suf := contextByIndex(ca, ctxN, i%nctx)
+						c15Run(c, kind, pre+string(boundaryChars[i/nctx])+suf, all)
+					},
+					Repr: func(i int64) string {
+						pre, suf := contextByIndex(ca, ctxN, i%nctx)
+						return fmt.Sprintf("%s tokenizer, input %q, %d option sets", kind, pre+string(boundaryChars[i/nctx])+suf, len(all))
+					}})
+				npat := countStrings(len(ca), 2) - 1
+				sp = append(sp, fw.Space{Name: "pumped-" + kind, N: npat * int64(len(counts)),
+					Run: func(c *fw.Ctx, i int64) {
+						c15Run(c, kind, pumped(stringByIndex(ca, 1+i%npat), counts[i/npat]), all)
+					},
+					Repr: func(i int64) string {
+						return fmt.Sprintf("%s tokenizer, input %q repeated %d times, %d option sets", kind, stringByIndex(ca, 1+i%npat), counts[i/npat], len(all))
 					}})
 			}
 			return sp
